@@ -36,6 +36,12 @@ def dispatch(prop: str):
     if prop == "C13":
         from .engines import values
         return values.check
+    if prop == "C07":
+        from .engines import robust
+        return robust.check_c07
+    if prop == "C20":
+        from .engines import robust
+        return robust.check_c20
     raise SystemExit(f"no check registered for {prop}")
 
 
